@@ -270,6 +270,23 @@ func TestVerif_HealthSched(t *testing.T) {
 				noteFault(calls, lerr)
 				kv := append([]any{"probes", probes.Load(), "calls", calls, "err", lerr}, state(prev)...)
 				b.Emit("Round", kv...)
+			case "RoundCut":
+				// a round whose own time budget (60 ms) is shorter than what the probe of a hanging backend takes
+				// (its 100 ms probe timeout); any other backend gets the usual budget
+				shift(0)
+				applyTimeout()
+				probes.Store(0)
+				budget := 15 * time.Second
+				if mode.Load().(string) == "timeout" {
+					budget = 60 * time.Millisecond
+				}
+				rctx, cancel := context.WithTimeout(ctx, budget)
+				chk.performHealthChecks(rctx)
+				cancel()
+				calls, lerr := rec.calls.Swap(0), rec.lastErr()
+				noteFault(calls, lerr)
+				kv := append([]any{"probes", probes.Load(), "calls", calls, "err", lerr}, state(prev)...)
+				b.Emit("RoundCut", kv...)
 			case "SlowBegin":
 				// a due check runs its probe and parks before storing the result
 				shift(0)
